@@ -15,8 +15,8 @@ import aave_lib as AL
 from aaverisk_lib import Case, Exact, close, TOL
 
 PROPERTY = "C12"
-LEAN_MODULES = ["Proofs.C12", "Proofs.C12.Loop", "Proofs.C12.Pick", "Proofs.C12.Refine", "Proofs.C12.RefineStep", "Proofs.C12.RefineLoop",
-                "Proofs.C12.DebtCheck", "Proofs.C12.RefineUpdate"]
+LEAN_MODULES = ["Proofs.C12", "Proofs.C12.Admitted", "Proofs.C12.Reachable", "Proofs.C12.Loop", "Proofs.C12.Pick", "Proofs.C12.Refine", "Proofs.C12.RefineStep", "Proofs.C12.RefineLoop",
+                "Proofs.C12.DebtCheck", "Proofs.C12.RefineUpdate", "Proofs.C12.Units", "Proofs.C12.Round35"]
 DRIVERS = ["driver_aaverisk"]
 RULE = ("portfolios over the uppercase symbols of the four risk-parameter CSVs: 1-3 collateral supplies (+ optional non-collateral supply), "
         "1-3 debts, liquidity/borrow indices 1..3 different per token, prices log-uniform over 11 decades (1e-6 .. 1e5), debts scaled so that the health factor "
@@ -120,7 +120,7 @@ def gen_case(rng, stream):
     # ---- special shapes
     if stream == "special":
         k = rng.choice(["nodebt", "nocoll", "zero-debt-entry", "lt0", "oversized", "heavy-bonus", "cheap-debt", "price0", "dust-debt", "dust-coll",
-                        "capped-tie", "capped-tie", "dust-left", "dust-left"])
+                        "capped-tie", "capped-tie", "dust-left", "dust-left", "priced-at-cf", "priced-at-cf"])
         tag = k
         if k == "dust-left" and len(collable) >= 2:
             # the first step seizes the whole of the big collateral; a dust collateral (1e-8 .. 1e-14 of it) is left against the rest of
@@ -197,6 +197,14 @@ def gen_case(rng, stream):
                     f = D(10) ** rng.randint(2, 5)
                     toks[d[0]]["p"] = str(D(toks[d[0]]["p"]) / f)
                     d[1] = str(D(d[1]) * f)
+        elif k == "priced-at-cf":
+            # debt tokens priced around the close factors 1/2 and 1 (the value handed in as "amount to cover" is compared with
+            # close factor x amount: which of the two is repaid flips at price = close factor, C12_repaid_token_units); the debts' values stay
+            for d in dl:
+                if d[0] not in colls:
+                    newp = D(rng.choice(["0.3", "0.07", "0.49", "0.5", "0.51", "0.75", "0.99", "1", "1.01"]))
+                    d[1] = str(D(d[1]) * D(toks[d[0]]["p"]) / newp)
+                    toks[d[0]]["p"] = str(newp)
         elif k == "price0":
             n = rng.choice(list(toks))
             toks[n]["p"] = "0"
@@ -263,6 +271,8 @@ def user_ops(m, b, toks, ops):
             elif o["op"] == "supply":
                 b.set_balance(t, D(10) ** 30)
                 m.supply(t, D(o["amount"]), True)
+            elif o["op"] == "switch_on":
+                m.change_collateral(t, True)        # refused for a token the risk table does not admit (as supply(..., True) is)
         except Exception:  # noqa: BLE001
             pass
 
@@ -306,6 +316,41 @@ def gen_rescue(rng, case: Case, nbars):
             if ops:
                 out[str(k)] = ops
     return out
+
+
+def switch_on_case(rng, fixed=False):
+    """a supply of a token the risk table does NOT admit as collateral (usageAsCollateralEnabled False, e.g. GHO: liquidation threshold 0),
+    made with collateral=False, worth more than any real collateral, which the user then tries to switch on through the public call
+    (rescue op `switch_on`, inside the bar) while the account is liquidatable: if the flag were accepted, `_liquidate` would pick that supply
+    as the collateral to seize, `_do_liquidate` would refuse it (AssertionError, swallowed) for every debt, and nothing would be liquidated"""
+    files = [f for f in L.rp_files() if any(not L.load_rp(f).loc[n].usageAsCollateralEnabled for n in L.usable_tokens(f))]
+    if fixed:
+        files = [f for f in files if "ethereum" in f.lower()] or files
+    path = files[0] if fixed else rng.choice(files)
+    rp = L.load_rp(path)
+    names = L.usable_tokens(path)
+    off = [n for n in names if not rp.loc[n].usageAsCollateralEnabled]
+    on = [n for n in names if rp.loc[n].usageAsCollateralEnabled and rp.loc[n].reserveLiquidationThreshold > 0]
+    if fixed and {"GHO", "WETH", "USDC"} <= set(names):
+        # the reviewer's input: 10 WETH at 800 (was 1000), 20000 GHO, debt 7000 USDC -> HF 0.943 (WETH LT as in the file)
+        toks = {"WETH": {"li": "1", "bi": "1", "p": "800"}, "GHO": {"li": "1", "bi": "1", "p": "1"}, "USDC": {"li": "1", "bi": "1", "p": "1"}}
+        case = Case(path, toks, [["WETH", "10", True], ["GHO", "20000", False]], [["USDC", "7000"]], {"WETH": "7"}, {})
+        return case, {"0": [{"op": "switch_on", "tok": "GHO"}]}
+    z = rng.choice(off)
+    c = rng.choice([n for n in on if n != z])
+    d = rng.choice([n for n in names if n not in (z, c)] or [c])
+    toks = {n: {"li": _idx(rng, False), "bi": _idx(rng, False), "p": _price(rng, False)} for n in dict.fromkeys([c, z, d])}
+    val = L.rnd_dec(rng, 2, 6, 6)
+    cbase = D(format(val / D(toks[c]["p"]) / D(toks[c]["li"]), ".25e"))
+    zbase = D(format(val * D(rng.choice([2, 5, 40])) / D(toks[z]["p"]) / D(toks[z]["li"]), ".25e"))
+    hf = F(rng.choice([30, 70, 94, 96, 99]), 100)
+    wlt = F(cbase) * F(D(toks[c]["li"])) * F(D(toks[c]["p"])) * F(rp.loc[c].reserveLiquidationThreshold)
+    dv = wlt / hf / F(D(toks[d]["p"])) / F(D(toks[d]["bi"]))
+    dbase = D(format(D(dv.numerator) / D(dv.denominator), ".28e"))
+    sup = [[c, str(cbase), True]]
+    sup.insert(rng.randint(0, 1), [z, str(zbase), False])
+    case = Case(path, toks, sup, [[d, str(dbase)]], {c: "7"}, {})
+    return case, {"0": [{"op": "switch_on", "tok": z}]}
 
 
 def gen_path(rng, case: Case):
@@ -373,6 +418,17 @@ def oracle(ctx: Ctx, case: Case, obs, tag):
             out.append(("liquidate.when-healthy", f"liquidation although HF = {hf0} is not in (0,1)"))
         if below and sane and not obs["snaps"] and obs["exc"] is None:
             out.append(("liquidate.skipped", f"HF = {float(hf0):.6g} < 1 but nothing was liquidated"))
+    # --- a collateral flag on a token the risk table does not admit cannot be reached through the public calls (supply and change_collateral
+    # both refuse it): where the case STARTED from admitted flags only, the state the bar ends in must have admitted flags only — the `sane`
+    # guard above must not excuse a liquidation that the code's own acceptance of such a flag prevents
+    if obs.get("api_reached"):
+        badflag = [n for n, b, c in S0["supplies"] if c and not rows[n]["cc"]]
+        if badflag:
+            out.append(("change_collateral.accepted-not-collateralisable",
+                        f"supply of {badflag[0]} is flagged as collateral although usageAsCollateralEnabled is False (reached through the public calls)"))
+            if below and not obs["snaps"] and obs["exc"] is None:
+                out.append(("liquidate.skipped.flag-on-non-collateralisable", f"HF = {float(hf0):.6g} < 1 but nothing was liquidated: the most valuable "
+                            f"flagged supply ({badflag[0]}) cannot be seized"))
     # --- per step
     P = S0
     seen_debts = []
@@ -390,6 +446,23 @@ def oracle(ctx: Ctx, case: Case, obs, tag):
             cf = F(1, 2) if hfP > F(95, 100) else F(1)
             if repaid > cf * EP.deb_amount(d) * (1 + TOL):
                 out.append(("step.close-factor", f"repaid {float(repaid)} of {float(EP.deb_amount(d))} {d} exceeds close factor {cf} (HF {float(hfP):.6g})"))
+            # units (C12_repaid_token_units): the value to cover (USD) is used as a token amount, so the step repays min(price, close factor)
+            # x amount tokens - at most; exactly when the collateral balance does not cap the seizure.  A debt token priced below the close
+            # factor is repaid price x amount tokens: less than the property allows - an observation, counted, not a violation
+            amt = EP.deb_amount(d)
+            unit_cap = min(pd, cf) * amt
+            uncapped = seized < EP.sup_amount(c) * (1 - TOL)
+            if sane and repaid > unit_cap * (1 + TOL):
+                out.append(("step.token-units-le", f"repaid {float(repaid)} {d} exceeds min(price {float(pd)}, close factor {cf}) x amount {float(amt)}"))
+            if sane and uncapped and not close(repaid, unit_cap):
+                out.append(("step.token-units", f"uncapped step repaid {float(repaid)} {d}, not min(price {float(pd)}, close factor {cf}) x amount {float(amt)} "
+                            f"= {float(unit_cap)}"))
+            if sane and not close(F(D(a.delt_to_cover)), amt * pd):
+                out.append(("step.cover-units", f"delt_to_cover {a.delt_to_cover} is not the debt's amount x price {float(amt * pd)}"))
+            if uncapped:
+                ctx.count("low_priced_debt_repaid_value_units" if pd < cf else "debt_priced_at_or_above_close_factor_repaid_cf_units")
+            elif pd < cf:
+                ctx.count("low_priced_debt_capped_step")
         bal = EP.sup_amount(c)
         if seized > bal * (1 + TOL):
             out.append(("step.seized-exceeds-balance", f"seized {float(seized)} {c} of a balance of {float(bal)}"))
@@ -488,8 +561,13 @@ def check_case(ctx: Ctx, case: Case, stream, tag, reqs, path=(), rescue=None):
     if rescue:
         rep["rescue"] = rescue
         stream += "+userops"
+    rp0 = L.load_rp(case.rp_path)
+    api = all((not s[2]) or bool(case.rp_over.get(s[0], {}).get("usageAsCollateralEnabled", rp0.loc[s[0]].usageAsCollateralEnabled)) for s in case.supplies)
+    if rescue and any(o["op"] == "switch_on" for ops in rescue.values() for o in ops):
+        ctx.count("feature:non-collateralisable-supply-switched-on-by-user")
     found = []
     for k, obs in enumerate(allobs):
+        obs["api_reached"] = api
         steps = "".join(("h" if a.health_factor_before > D("0.95") else "f") + ("c" if len([s for s in Q["supplies"] if s[0] == a.collateral_token]) == 0 else "u")
                         for a, Q in obs["snaps"])
         key = (f"{stream}{'+bar' + str(k) if k else ''}:{tag if not k else 'later'}:c{sum(1 for s in obs['S0']['supplies'] if s[2])}d{len(obs['S0']['debts'])}:"
@@ -540,6 +618,10 @@ def run(ctx: Ctx):
         ctx.note("risk_params_sane:" + f.split("/")[-1].replace("Aave Protocol Parameter ", ""), "ok" if not bad else bad[:5])
     n = ctx.scale(800, 20000)
     reqs = []
+    # non-collateralisable supplies the user tries to switch on while liquidatable (one fixed input, then random ones)
+    for i in range(ctx.scale(25, 400)):
+        case, rescue = switch_on_case(ctx.rng, fixed=(i == 0))
+        check_case(ctx, case, "special", "switch-on-noncoll", reqs, (), rescue)
     for i in range(n):
         r = ctx.rng.random()
         stream = "random" if r < 0.6 else ("boundary" if r < 0.8 else "special")
